@@ -27,6 +27,7 @@ EXPLANATION = (
     "NOT decided: that the transformed schema accepts exactly the transformed "
     "frames; inverse laws on values."
     ' (R13) a transformation that re-keys the columns mapping with keys computed from a caller-supplied mapping (rename_columns) raises, before the comprehension, under a test for repeated values of that mapping - otherwise two columns given one new name collapse silently.'
+    ' (R14) no transformation method turns a caller-supplied parameter into a sequence through set(...) (the order of the labels would be their hash order, which changes between interpreter runs).'
 )
 LEVEL_RULE = "one obligation per (method) / (constructor parameter) / (constructor call, attribute) / raise"
 FLOORS = {"R1": 10, "R2": 28, "R3": 20, "R4": 6, "R5": 10, "R6": 2, "R7": 1, "R8": 1, "R9": 2, "R10": 1, "R11": 1, "R12": 8}
@@ -590,9 +591,41 @@ def r13_computed_keys_are_distinct(ctx):
         raise AnalysisError("dataframe/container.py: no transformation re-keys the columns from a caller-supplied mapping")
 
 
+def r14_label_order_not_taken_from_a_set(ctx):
+    """A transformation that de-duplicates caller-supplied labels and then *uses their order* (the columns re-created by
+    `reset_index(level=[...])`, the index levels built by `set_index`) must keep the caller's order: `list(set(labels))`
+    iterates in hash order, which for strings changes from one interpreter run to the next - the same call produces
+    schemas with different column order (observable through `ordered=True`, the generated script and the error messages).
+    Decided: in the transformation methods no parameter is turned into a sequence via `set(...)`; `dict.fromkeys` keeps
+    first-occurrence order."""
+    m = ctx.ix.module("pandera/api/dataframe/container.py")
+    n = 0
+    for f in m.all_functions:
+        if f.cls is None or f.name not in TRANSFORMS:
+            continue
+        params = set(f.params) - {"self", "cls"}
+        n += 1
+        bad = []
+        for c in calls_in(f.node):
+            if isinstance(c.func, ast.Name) and c.func.id in ("set", "frozenset") and c.args and isinstance(c.args[0], ast.Name) and c.args[0].id in params:
+                par = getattr(c, "_parent", None)
+                ordered_use = isinstance(par, ast.Call) and isinstance(par.func, ast.Name) and par.func.id in ("list", "tuple", "sorted") and par.func.id != "sorted" \
+                    or isinstance(par, (ast.For, ast.comprehension)) and getattr(par, "iter", None) is c
+                if ordered_use:
+                    bad.append(c)
+        ctx.touched(f)
+        ctx.ob("R14", f, f"{f.short}: the order of caller-supplied labels is not taken from a set", not bad,
+               "no set(...) of a parameter is iterated" if not bad else
+               f"`{txt(getattr(bad[0], '_parent', bad[0]))[:50]}` orders the labels by their hash: the columns re-created by reset_index(level=['b', 'a', 'c']) come out in an "
+               "order that changes between interpreter runs (PYTHONHASHSEED)", f.loc(bad[0] if bad else f.node))
+    if n < 5:
+        raise AnalysisError(f"transformation methods found: {n}")
+
+
 def run(ctx):
     r12_fresh_result(ctx)
     r13_computed_keys_are_distinct(ctx)
+    r14_label_order_not_taken_from_a_set(ctx)
     r11_rename_reaches_unique(ctx)
     r9_set_name_scope(ctx)
     r10_names_by_none_only(ctx)
